@@ -13,7 +13,7 @@ from .program import Program, Unsupported
 BlobSort = z3.DeclareSort('Blob')
 StrSort = z3.DeclareSort('StrS')
 SORTS = {'TInt': z3.IntSort(), 'TBlob': BlobSort, 'TStr': StrSort}
-RES_VALUES = {'Ok': 0, 'Nok': 1, 'Busy': 2}
+RES_VALUES = {name: i for i, name in enumerate(fam.RES_FIELDS)}
 
 
 def cap(name: str) -> str:
@@ -154,6 +154,10 @@ class World:
                                    pump.in_dispatcher > 0, len(pump.queue)))
             return M.Sym(reply) if reply is not None else None
         return M.External(f'{side}.{prt.name}.{ev.name}', impl)
+
+    def comp_slot(self, prt: fam.Prt, ev: fam.Ev) -> M.Loc:
+        """where the component's behaviour for an event it implements is plugged in"""
+        return self.encapsulee().fields[f'hook_{prt.name}_{ev.direction}_{ev.name}']
 
     def bind(self, slot_loc: M.Loc, ext: M.External):
         self.m.store(slot_loc, M.FuncV('external', ext))
